@@ -66,9 +66,18 @@ BROKEN_NUMBERS = [b"-.", b"- ", b"2e", b"1.5E-", b"1e999", b"2e+", b"-e", b"1.5e
 WORD_TOKENS = [b"True", b"False", b"Null", b"NULL", b"TRUE", b"FALSE", b"None", b"NaN", b"Infinity", b"undefined", b"Nil", b"Nul", b"Yes", b"No", b"N/A"]
 
 
+# complete string literals whose bytes are not UTF-8: one malformed value each
+NUL_RUNS = [b"\x00\x00", b"\x00\x00\x00\x00", b"\x00", b"\x00\x00\x00"]
+BAD_STRINGS = [b'"caf\xe9"', b'"\xff"', b'"a\xc3"', b'"\xed\xa0\x80"', b'"\xf8\x88\x80\x80\x80"', b'"ok \xe2\x82 cut"', b'"\x80"']
+
+
 def gen_token(rng):
     if rng.random() < 0.12:
         return rng.choice(BROKEN_NUMBERS)
+    if rng.random() < 0.05:
+        return rng.choice(BAD_STRINGS)
+    if rng.random() < 0.04:
+        return rng.choice(NUL_RUNS)       # what a log file truncated in place is padded with
     if rng.random() < 0.08:
         return rng.choice(WORD_TOKENS)
     n = rng.choice((1, 1, 1, 2, 3, 6))
@@ -114,7 +123,7 @@ def build(unit, with_noise=True, only_gap=None, upto_value=None):
             pos += len(w)
             if first is None:
                 # a truncated value becomes malformed only where the input ends
-                first = (pos if t not in BROKEN_NUMBERS else pos + len(t) - 1) if t not in TRUNCATED else None
+                first = (pos if t not in BROKEN_NUMBERS and t not in BAD_STRINGS else pos + len(t) - 1) if t not in TRUNCATED else None
                 if first is None:
                     trunc_first = True
             out.append(t)
